@@ -134,7 +134,7 @@ CHECKS = {
                  "same objects. distinct_nontrivial = distinct (op kind, outcome returned/threw, argument-class tuple) executed."),
         "assumptions": ["in-contract classes: scalar element access and peakloc only with valid indices; raw-pointer entry points only with buffers as long as the n passed "
                         "(n itself may differ from the plan size); reductions and signal-processing free functions on non-empty arrays; sizes/orders >= 1; overlaps < window "
-                        "length; nextprime/primes <= 2^22 (documented as slow above 2^20); allocation failure is not injected (DESIGN 2.4)",
+                        "length; nextprime/primes <= 2^22 (documented as slow above 2^20); from_real<T>/from_complex<T> only to floating-point T (conversion of non-representable values to an integer T is the caller's business); sample VALUES are otherwise unconstrained: 8-25 % of the arrays and streams carry NaN / +-Inf samples; allocation failure is not injected (DESIGN 2.4)",
                         "edge budget per op = max(2e6, 50 x cost model, 40 N^2 for the largest live pool array); the largest fraction of its budget any op of each kind used is reported per kind (max_budget_used_permille.<kind>)",
                         "oracle: returns or throws std::exception; no ASan/UBSan report, signal, std::terminate or budget overrun. Results are not compared with anything"],
         "extra_stubs": ["stdio layer (sim/simio.cpp: fopen/fseek/fread/feof/fclose wrapped at link time, in-memory files with per-file fault plans)"],
